@@ -502,7 +502,7 @@ class Sim:
 
     def _op_new_pool(self, step, ctx):
         """Create another pool in the middle of the run (C11: unnamed pools get distinct names)."""
-        if len(self.pools) >= 5:
+        if len(self.pools) >= (16 if self.cfg.get("many_pools") else 5):
             return False
         pcfg = dict(step["cfg"])
         i = len(self.pools)
